@@ -14,6 +14,8 @@
 (*   "wrongcol"  the step reads column cond[i]-1 instead of cond[i]                       *)
 (*   "otherrow"  sampling reads the given from the other row                             *)
 (*   "noinverse" the nquad wrapper applies arg_order instead of argsort(arg_order)        *)
+(*   "clipgiven" sampling clips the given to the range 0..1 before it is used (the range  *)
+(*               of values a fit has seen) instead of using the value in the row          *)
 EXTENDS RosenblattOps, Json, TLC
 
 CONSTANTS MaxN,        \* dimensions 2..MaxN
@@ -52,7 +54,9 @@ Init ==
 (* the column / row the implementation reads *)
 UsedCol(i) == IF Mut = "wrongcol" /\ cond[i] > 1 THEN cond[i] - 1 ELSE cond[i]
 UsedRow(r) == IF Mut = "otherrow" THEN (r % Rows) + 1 ELSE r
-GivenUsed(r, i) == IF cond[i] = 0 THEN 0 ELSE x[UsedRow(r)][UsedCol(i)]
+GivenUsed(r, i) == IF cond[i] = 0 THEN 0
+                   ELSE IF Mut = "clipgiven" THEN Min2(x[r][cond[i]], 1)
+                   ELSE x[UsedRow(r)][UsedCol(i)]
 
 IcdfStep(i) ==
     /\ mode = "icdf" /\ pc = i /\ i <= n
